@@ -429,6 +429,31 @@ func TimedPrograms() []*Program {
 		p.Phases = append(p.Phases, []Op{{Op: "sleep", Ms: ms + 400}})
 		ps = append(ps, p)
 	}
+	// a buffer generation that ends early - the row limit is reached, or a Flush empties it - well inside
+	// MaxBufferedTime of its first batch, and a small batch that starts the next generation right behind it (still
+	// before the first generation's deadline would have come): that batch's own deadline has to be honoured with no
+	// further call, at several offsets of the new generation inside the old one's window
+	for _, how := range []string{"limit", "flush"} {
+		for _, off := range []int{60, 250, 480} {
+			const ms = 600
+			p := &Program{
+				Name:  fmt.Sprintf("T-regen-%s-%d", how, off),
+				Cfg:   Cfg{IBS: 4, MBRows: 2, MBTimeMs: ms},
+				Timed: true,
+				Clock: true,
+			}
+			p.Phases = append(p.Phases, []Op{{Op: "start"}})
+			if how == "limit" {
+				p.Calls = []Call{rowsCall(1, "unbuf", 1, 1), rowsCall(2, "unbuf", 1, 1), rowsCall(3, "unbuf", 1, 1)}
+				p.Phases = append(p.Phases, []Op{calls("c1", 1)}, []Op{{Op: "sleep", Ms: 30}}, []Op{calls("c1", 2)})
+			} else {
+				p.Calls = []Call{rowsCall(1, "unbuf", 1, 1), {ID: 2, Kind: "force", Chan: "unbuf"}, rowsCall(3, "unbuf", 1, 1)}
+				p.Phases = append(p.Phases, []Op{calls("c1", 1)}, []Op{{Op: "sleep", Ms: 30}}, []Op{calls("c2", 2)})
+			}
+			p.Phases = append(p.Phases, []Op{{Op: "sleep", Ms: off}}, []Op{calls("c1", 3)}, []Op{{Op: "sleep", Ms: 2*ms + 400}})
+			ps = append(ps, p)
+		}
+	}
 	return ps
 }
 
